@@ -70,6 +70,10 @@ from .annotationparser import (
     OPT_TRANSFER_CONTAINER,
     OPT_TRANSFER_FLOATING,
     OPT_TRANSFER_NONE,
+    OPT_NOT_NULLABLE,
+    OPT_NOT_OPTIONAL,
+    SCOPE_OPTIONS,
+    TRANSFER_OPTIONS,
 )
 
 from .utils import to_underscores_noprefix
@@ -781,10 +785,14 @@ class MainTransformer(object):
                  node.type.target_giname == 'Gio.Cancellable')):
             node.nullable = True
 
-        # Final override for nullability
+        # Final override for nullability and optionality
         if ANN_NOT in annotations:
-            node.nullable = False
-            node.not_nullable = True
+            not_options = annotations.get(ANN_NOT) or []
+            if OPT_NOT_NULLABLE in not_options:
+                node.nullable = False
+                node.not_nullable = True
+            if OPT_NOT_OPTIONAL in not_options:
+                node.optional = False
 
         if tag and tag.description:
             node.doc = tag.description
